@@ -40,9 +40,9 @@ def main():
                 'level_note': NOTE, 'technique': TECH})
     na = [{'property_id': i, 'reason': NA.get(i, PENDING)} for i in ids if i not in CLAIMED]
     m = {'version': 1, 'setup_cmd': 'true',
-         'hooks': {'guard': 'XTL_VERIF', 'enable': 'no hooks are needed: wrappers instantiate the public templates from outside (-DXTL_VERIF is accepted and unused)',
+         'hooks': {'guard': 'XTL_VERIF', 'enable': 'one hook: the C20 check compiles its wrappers with -DXTL_VERIF -DXTL_VERIF_PATH_BUFFER=<n> (n = 16, 64, 320; 1100 in the thorough tier), which scales the internal buffer of xtl::executable_path (include/xtl/xsystem.hpp); every other check instantiates the public templates from outside and needs no hook',
                    'baseline_off_cmd': 'cmake -G Ninja -S /repo -B /repo/_build -DBUILD_TESTS=ON -DCMAKE_BUILD_TYPE=RelWithDebInfo -DCMAKE_CXX_FLAGS=-Wno-error && cmake --build /repo/_build && ctest --test-dir /repo/_build -j8 --timeout 900',
-                   'source_commits': [], 'add_only': True},
+                   'source_commits': ['332538a'], 'add_only': False},
          'engines': [{'name': 'ir2c+cbmc', 'path': 'tools/vrun.py', 'serves_properties': sorted(CLAIMED),
                       'kind_free_text': 'clang++-14 -emit-llvm -> tools/ir2c.py (LLVM IR to C through libLLVM-14 C API) -> cbmc 6.11 (minisat/cadical/kissat/z3/cvc5 back ends); native replay with g++ ASan/UBSan'}],
          'checks': checks, 'not_applicable': na,
